@@ -139,7 +139,11 @@ impl ShapeWorld {
                         m => back < (m as i64 - 1),
                     };
                     let base: i64 = if future { 7_258_118_400 } else { 1_700_000_000 };
-                    let secs = base + t * 10 + k as i64;
+                    // later chunks of a directory may be uploaded after the first chunk of the next directory (an end chunk
+                    // that reaches the bucket after the next volume has started): the spread between the chunks of one
+                    // directory is 1 s, 7 s or 15 s while directories start 10 s apart
+                    let spread = [1i64, 7, 15][(self.shape.content_mode % 3) as usize];
+                    let secs = base + t * 10 + k as i64 * spread;
                     let dt = chrono::DateTime::<chrono::Utc>::from_timestamp(secs, 0).expect("valid time");
                     objects.push(ListedObject {
                         key: format!("{}/{}/{}", self.site, d, name),
@@ -245,6 +249,7 @@ pub fn classify(s: &Shape) -> CaseInfo {
         .class(s.time_mode == 1, "upload-times-in-the-future")
         .class(s.time_mode >= 2, "upload-times-straddle-now")
         .class(s.content_mode != 0, "directories-without-start-chunk")
+        .class(s.content_mode % 3 != 0, "later-chunks-newer-than-next-directory-start")
 }
 
 pub fn run(ctx: &Ctx, rep: &mut Report) {
